@@ -424,3 +424,57 @@ func TestC19RegressRetry(t *testing.T) {
 		}
 	}
 }
+
+// F15: a chunk load that fails part way through its header must not leave the
+// doc-value reader serving the previous chunk from a half-overwritten header.
+func TestC19RegressDocValueHeader(t *testing.T) {
+	ctx := &Ctx{}
+	defer ctx.Close()
+	sc := &Scenario{Schema: map[string]int{"a": dvAlways}, Norm: normFns[0]}
+	p := WideParams{N: 2100, SparsePer: 40, FreqMod: 1} // chunks of 1024, 1024 and 52 documents: the header slice is reused in place
+	b := p.Batch(sc)
+	bs, err := Persist(mustBuild(t, b, 1025))
+	if err != nil {
+		t.Fatal(err)
+	}
+	f, err := ctx.writeTemp(bs)
+	if err != nil {
+		t.Fatal(err)
+	}
+	ops := []rop{{kind: 3, doc: 1026, fields: []string{"a"}}, {kind: 3, doc: 1030, fields: []string{"a"}}, {kind: 3, doc: 3, fields: []string{"a"}}, {kind: 3, doc: 1026, fields: []string{"a"}}, {kind: 3, doc: 1027, fields: []string{"a"}}}
+	load := func() (*ropEnv, *faultReader) {
+		d, fr, err := faultData(f)
+		if err != nil {
+			t.Fatal(err)
+		}
+		seg, err := ice.Load(d)
+		if err != nil {
+			t.Fatal(err)
+		}
+		return &ropEnv{seg: seg, dvr: map[string]segment.DocumentValueReader{}}, fr
+	}
+	env, fr := load()
+	fr.arm(-1)
+	good := make([]string, len(ops))
+	start := make([]int64, len(ops))
+	for i, o := range ops {
+		start[i] = fr.calls.Load()
+		if good[i], err = o.run(env); err != nil {
+			t.Fatal(err)
+		}
+	}
+	// fail after 0..30 reads of the third call (the load of chunk 0)
+	for j := int64(0); j <= 30; j++ {
+		env, fr := load()
+		fr.arm(start[2] + j)
+		for i, o := range ops {
+			res, err := o.run(env)
+			if isPanic(err) {
+				t.Fatalf("F15: failing from read %d of call #2: call #%d %s: %v", j, i, o, err)
+			}
+			if err == nil && res != "" && res != good[i] {
+				t.Fatalf("F15: failing from read %d of call #2: call #%d %s returned %q, fault-free %q", j, i, o, res, good[i])
+			}
+		}
+	}
+}
